@@ -43,6 +43,16 @@ CLAIMS = {
                 'the archive heartbeat runs before every step and once after the loop; the changed-field flags of the delta encoder only accumulate.',
         not_decided='arbitrary histories; acceptance of every well-formed file by the index walk; per-snapshot times equal to the first snapshot time',
         design_ref='3/C06'),
+    'C07': dict(
+        module='c07', level='other',
+        technique='ownership / who-may-free analysis over all translation units, def-use of I/O results in the index loop, table agreement C enum vs Python ast, effect set of the cadence logic vs persisted rows',
+        decided='no function frees a pointer parameter unless it is a documented destructor (so every *_with_messages initialiser leaves the archive handle owned by its caller); '
+                'members of the handle released on error paths are reset to NULL; inside the per-snapshot index loop every fread/fseek result is stored and tested; '
+                'no Python exception is constructed without being raised (one frozen unreachable site); BINARY_WARNINGS lists exactly the C codes with the C severity and every user raises on major errors; '
+                'everything the cadence logic reads is persisted; after a read error the archive is kept iff nblobs>0 (warning) and otherwise an error bit is set, and Python tests the complement; '
+                'the append path checks and repairs the tail before writing (R06.2).',
+        not_decided='every byte offset of a cut; repeated crash/restart cycles; identity with the uninterrupted archive (runtime)',
+        design_ref='3/C07'),
     'C08': dict(
         module='c08', level='other',
         technique='structural/dominance checks on the exit state machine and the integrate driver (clang AST), operator-sequence time accounting, status-table agreement C enum vs Python ast',
